@@ -80,9 +80,9 @@ func NewWriterLevel(w io.Writer, level, wc int) (*Writer, error) {
 	go func() {
 		defer bg.wg.Done()
 		for qw := range bg.queue {
-			if !writeOK(bg, <-qw.flush) {
-				break
-			}
+			// Keep draining after a failure so that queued
+			// compressors are returned and waiters released.
+			writeOK(bg, <-qw.flush)
 		}
 	}()
 
@@ -91,9 +91,17 @@ func NewWriterLevel(w io.Writer, level, wc int) (*Writer, error) {
 
 func writeOK(bg *Writer, c *compressor) bool {
 	defer func() { bg.waiting <- c }()
+	// Every queued block is accounted for exactly once.
+	defer bg.qwg.Done()
 
 	if c.err != nil {
 		bg.setErr(c.err)
+		return false
+	}
+	if bg.Error() != nil {
+		// An earlier block failed; this one is dropped.
+		c.buf.Reset()
+		c.next = 0
 		return false
 	}
 	if c.buf.Len() == 0 {
@@ -101,7 +109,6 @@ func writeOK(bg *Writer, c *compressor) bool {
 	}
 
 	_, err := io.Copy(bg.w, &c.buf)
-	bg.qwg.Done()
 	if err != nil {
 		bg.setErr(err)
 		return false
